@@ -556,6 +556,11 @@ func (s *scanningState) scan(line []byte) (bool, error) {
 				return true, nil
 			}
 		}
+		if s.state != looking {
+			// A goroutine dump is never continued by a race report.
+			s.state = done
+			return false, nil
+		}
 		// Switch to race detection mode.
 		if bytes.Equal(trimmed, raceHeaderFooter) {
 			// TODO(maruel): We should buffer it in case the next line is not a
